@@ -280,6 +280,22 @@ def check_patterns(case, acc):
             rows = {nm: got[nm].shape[0] for nm in got if got[nm] is not None}
             if len(set(rows.values())) > 1:
                 problems.setdefault(("row-aligned", "rows"), f"{tag}: matrices have different row counts {rows}")
+        # ---- the caller's frame is never touched, also when it holds exactly the columns the formula uses
+        if case["marker"] in ("none", "nullable", "nullable-int") and err is None and not isinstance(ref, Exception):
+            acc.calls += 1
+            sub = df[[c for c in df.columns if c in used]].copy()
+            before = sub.copy(deep=True)
+            try:
+                g2 = mats(build(f, sub, "drop"))
+                same_frame = sub.shape == before.shape and list(sub.index) == list(before.index) and all((sub[c].isna() == before[c].isna()).all() and (sub[c].dropna() == before[c].dropna()).all() for c in sub.columns)
+                if not same_frame:
+                    problems.setdefault(("caller-frame-untouched", "rows"), f"{tag}: after design_matrices(..., na_action='drop') on a frame holding exactly the used columns, the caller's frame has {len(sub)} rows (had {len(before)})")
+                for nm in ("response", "common", "group"):
+                    a, b = got[nm], g2[nm]
+                    if (a is None) != (b is None) or (a is not None and (a.shape != b.shape or not np.allclose(a, b, rtol=1e-12, atol=1e-12, equal_nan=True))):
+                        problems.setdefault(("drop-equals-removed-rows", "used-columns-only"), f"{tag}: {nm} differs when the frame holds only the used columns")
+            except Exception as e:
+                problems.setdefault(("drop-equals-removed-rows", "used-columns-only-" + exc_sig(e)), f"{tag}: on a frame holding exactly the used columns 'drop' raised {type(e).__name__}: {e}")
         # ---- error
         acc.calls += 1
         try:
